@@ -69,6 +69,12 @@ Definition to_int (l : qstr) : Z * bool :=
            end
     end
   end.
+(* the mathematical value of a digit string (no cut-off, no wrap-around): what [to_int] is compared with in
+   SafetyProofs.v - an all-digit width text is accepted iff THIS value fits an int, so a width of ten or more
+   digits is never silently reduced modulo 2^32 *)
+Definition is_digit (c : N) : bool := ((48 <=? c) && (c <=? 57))%N.
+Fixpoint dec_value (l : qstr) (acc : Z) : Z :=
+  match l with [] => acc | c :: r => dec_value r (acc * 10 + Z.of_N (c - 48)) end.
 (* QString::number(int) *)
 Fixpoint dec_aux (fuel : nat) (n : N) (acc : qstr) : qstr :=
   match fuel with O => acc | S f =>
@@ -317,6 +323,24 @@ Definition format_c (toks : list token) (m : menv) : option qstr :=
 Definition format_pattern_c (p : qstr) (m : menv) : option qstr :=
   do toks <- parse_pattern_c p; format_c toks m.
 
+(* ---- the message as the caller hands it over ------------------------------------------------ *)
+(* file, function and category are `const char *` and each may be the NULL POINTER (release builds with
+   QT_NO_MESSAGELOGCONTEXT, QML / scripting callers, a default-constructed LogMessage); the tokens convert
+   them with QString(const char* p) / fromLatin1 / QByteArray(const char* p), for which null = empty ([cstr]) *)
+Record rawmsg := { r_mt : mtype; r_text : qstr; r_file : option qstr; r_func : option bytes; r_cat : option qstr;
+                   r_line : Z; r_time : qstr; r_tid : qstr; r_ptr : qstr; r_attrs : list (qstr * qstr) }.
+Definition env_of_raw (r : rawmsg) : menv :=
+  {| mt := r_mt r; text := r_text r; mfile := cstr (r_file r); mfunc := cstr (r_func r); mcat := cstr (r_cat r);
+     mline := r_line r; mtime := r_time r; mtid := r_tid r; mptr := r_ptr r; attrs := r_attrs r |}.
+Definition format_raw_c (p : qstr) (r : rawmsg) : option qstr := format_pattern_c p (env_of_raw r).
+(* the same message with every null pointer replaced by a pointer to "" *)
+Definition denull (r : rawmsg) : rawmsg :=
+  {| r_mt := r_mt r; r_text := r_text r; r_file := Some (cstr (r_file r)); r_func := Some (cstr (r_func r));
+     r_cat := Some (cstr (r_cat r)); r_line := r_line r; r_time := r_time r; r_tid := r_tid r; r_ptr := r_ptr r;
+     r_attrs := r_attrs r |}.
+Definition is_ptr_kind (k : tkind) : bool :=
+  match k with KFile | KShortFile _ | KFunction | KFunc | KCategory => true | _ => false end.
+
 (* the resource bound of a token list on a message: sum over the emitting tokens of
    max(|value|, width) — what the output (and Qt's allocation) can reach *)
 Definition tok_bound (t : token) (m : menv) : Z :=
@@ -373,6 +397,15 @@ Fixpoint pretty_seq_c (colorize : bool) (maxw : Z) (cw : Z) (l : list (mtype * o
   | (t, c, m) :: r => do o <- pretty_c colorize maxw cw t c m; do rest <- pretty_seq_c colorize maxw (snd o) r; Some (fst o :: rest)
   end.
 
+(* PrettyFormatter sees the raw category pointer: qstrcmp(categoryRaw, "default") == 0 -> default category,
+   otherwise QString::fromUtf8(categoryRaw); qstrcmp(nullptr, "default") <> 0 and fromUtf8(nullptr) = "",
+   so the null pointer is the NON-default category with the empty name ("[] ") *)
+Definition s_default := A [100;101;102;97;117;108;116].
+Definition pretty_cat_of_ptr (c : option qstr) : option qstr :=
+  match c with None => Some [] | Some s => if beqb s s_default then None else Some s end.
+Definition pretty_seq_raw_c (colorize : bool) (maxw : Z) (cw : Z) (l : list (mtype * option qstr * qstr)) : option (list qstr) :=
+  pretty_seq_c colorize maxw cw (map (fun x => (fst (fst x), pretty_cat_of_ptr (snd (fst x)), snd x)) l).
+
 (* ---- oracles evaluated on the implementation's output --------------------------------------- *)
 Definition prop_c14_pattern_b (p : qstr) (m : menv) (impl_out : qstr) : bool :=
   match parse_pattern_c p with
@@ -381,3 +414,4 @@ Definition prop_c14_pattern_b (p : qstr) (m : menv) (impl_out : qstr) : bool :=
                  | None => false end
   | None => false
   end.
+Definition prop_c14_raw_b (p : qstr) (r : rawmsg) (impl_out : qstr) : bool := prop_c14_pattern_b p (env_of_raw r) impl_out.
